@@ -88,9 +88,9 @@ pub fn build(vs: Vec<VEntry>, fs: Vec<FEntry>, cs: Vec<CEntry>, overrides: bool,
     Prog { key, src, vs, fs, cs, overrides }
 }
 
-const V_NAMES: [&str; 5] = ["vs_main", "vertexMain2", "v", "\u{c9}tape_v", "VS_UPPER"];
-const F_NAMES: [&str; 5] = ["fs_main", "fragMain_1", "f", "\u{c9}tape_f", "FS_UPPER"];
-const C_NAMES: [&str; 5] = ["cs_main", "computeMain3", "c", "\u{c9}tape_c", "CS_UPPER"];
+const V_NAMES: [&str; 5] = ["vs_main", "vertexMain2", "v", "\u{e9}tape_\u{df}v", "VS_UPPER"];
+const F_NAMES: [&str; 5] = ["fs_main", "fragMain_1", "f", "\u{e9}tape_\u{df}f", "FS_UPPER"];
+const C_NAMES: [&str; 5] = ["cs_main", "computeMain3", "c", "\u{e9}tape_\u{df}c", "CS_UPPER"];
 
 pub fn space(thorough: bool) -> Vec<Prog> {
     let mut out = vec![];
